@@ -16,13 +16,13 @@ import (
 type AVKind int
 
 const (
-	AVUnknown AVKind = iota
-	AVDest            // the SC's destination subscriber
-	AVFunc            // a closure (literal + env) or a declared function
-	AVMethodVal       // x.M as a value
-	AVObserver        // NewObserverWithContext(f1, f2, f3) & friends
-	AVParam           // a parameter of an enclosing API function (user-supplied)
-	AVSub             // the subscription returned by a subscribe site
+	AVUnknown   AVKind = iota
+	AVDest             // the SC's destination subscriber
+	AVFunc             // a closure (literal + env) or a declared function
+	AVMethodVal        // x.M as a value
+	AVObserver         // NewObserverWithContext(f1, f2, f3) & friends
+	AVParam            // a parameter of an enclosing API function (user-supplied)
+	AVSub              // the subscription returned by a subscribe site
 	AVNil
 	AVCtx0      // the SC's subscriber context
 	AVComposite // a subscription created by NewSubscription(...)
@@ -133,7 +133,8 @@ type Ctx struct {
 	BasePos    token.Pos // position of the creation in the parent's entry function
 	InLoop     bool      // created inside a loop of the parent context
 	Awaited    bool      // KSrc: the subscription is Wait()ed in the parent context after creation
-	Recovered  bool      // KGo: started through recoverUnhandledError / deferred recover
+	Recovered  bool      // KGo: started through recoverUnhandledError / deferred recover / lo.TryCatch*
+	CatchEmits bool      // KGo: started as `go lo.TryCatch*(f, handler)` whose handler sends an Error notification to the destination
 	Via        []string  // inlining path
 	// KTeardown: who runs this teardown. Root: returned by the subscribe closure itself.
 	// Otherwise OwnerAV/OwnerExpr is the subscription it was Add()ed to, or OwnerLit is the
@@ -238,12 +239,12 @@ type TimerSite struct {
 // BlockSite is a potentially blocking operation.
 type BlockSite struct {
 	Rec
-	Node ast.Node
-	What string // wait, sleep, recv, send, select, range-chan
-	Recv *AV    // for wait
-	Expr ast.Expr
-	Chans []ast.Expr // select: channel expressions of the communication clauses
-	Forever bool     // loop without condition
+	Node    ast.Node
+	What    string // wait, sleep, recv, send, select, range-chan
+	Recv    *AV    // for wait
+	Expr    ast.Expr
+	Chans   []ast.Expr // select: channel expressions of the communication clauses
+	Forever bool       // loop without condition
 }
 
 // Store is an assignment of a subscription value into a variable, element or field.
@@ -577,9 +578,14 @@ func (w *walker) goStmt(x *ast.GoStmt, fr frame) {
 	callee := Callee(info, call)
 	var fn *AV
 	var args []ast.Expr
+	var handler *AV
 	if callee != nil && callee == w.m.Obj.RecoverUnhandled && len(call.Args) == 1 {
 		gs.Recovered = true
 		fn = w.eval(call.Args[0], fr)
+	} else if callee != nil && callee.Pkg() != nil && callee.Pkg().Path() == "github.com/samber/lo" && strings.HasPrefix(callee.Name(), "TryCatch") && len(call.Args) == 2 {
+		gs.Recovered = true
+		fn = w.eval(call.Args[0], fr)
+		handler = w.eval(call.Args[1], fr)
 	} else {
 		fn = w.eval(call.Fun, fr)
 		args = call.Args
@@ -600,6 +606,15 @@ func (w *walker) goStmt(x *ast.GoStmt, fr frame) {
 			avs = append(avs, w.eval(a, fr))
 		}
 		w.enterFunc(fn, avs, x, frame{ctx: body, slot: -1, depth: fr.depth, via: fr.via, stack: fr.stack})
+		if handler != nil && handler.Kind == AVFunc && handler.Lit != nil {
+			before := len(w.sc.Emits)
+			w.enterFunc(handler, nil, x, frame{ctx: body, slot: -1, depth: fr.depth, via: fr.via, stack: fr.stack})
+			for _, e := range w.sc.Emits[before:] {
+				if e.ToDest && e.Kind == EmitError {
+					body.CatchEmits = true
+				}
+			}
+		}
 	} else {
 		w.sc.Unknown = append(w.sc.Unknown, fmt.Sprintf("go statement with unresolved function at %s", w.m.Prog.Rel(x.Pos())))
 	}
